@@ -173,3 +173,114 @@ def replay_history(model, params, role):
         got = [l.strip() for l in out.splitlines() if l.startswith(("unsub ", "match "))]
         return got != want
     return "\n".join(lines) + "\n", pred, f"history replayed natively; prefix-multiset reference expects {want}"
+
+
+# ------------------------------------------------------------------------------------------------
+# PUB: a stalled subscriber must not block the publisher or the delivery to other subscribers
+DIST = "socket::patterns::distributor::Distributor"
+SCA = "sessionx::iface::ScaConnectionIface"
+HELPER_CANDIDATES = ["socket::core::connection_sndtimeo", "socket::core::command_processor::connection_sndtimeo", "socket::options::connection_sndtimeo"]
+
+
+def pub_never_blocks(h):
+    """Distributor::{send_to_all, send_to_all_multipart} (the PUB/XPUB fan-out, coroutine MIR) over two real
+    ScaConnectionIface connections: one whose pipe to the session is full (a subscriber that stopped reading), one with
+    room. The connections carry the send timeout the socket core gives a PUB socket's connections for a symbolic
+    SNDTIMEO option (-1, 0, any positive value). The publish call must complete at its first poll and the other
+    subscriber must get the message."""
+    from .d_c09 import Fut
+    from ..models import some, none, ok, err, dur_ns, _deref, MapV, _ChanM, _chan_fut_poll
+    prog = h.it.prog
+    mode = h.choose(3, "sndtimeo")
+    if mode == 0:
+        opt = none()
+    elif mode == 1:
+        opt = some(dur_ns(0))
+    else:
+        d = h.bvar("sndtimeo_ns", 128)
+        h.assume(z3.And(z3.UGT(d, 0), z3.ULE(d, z3.BitVecVal(2147483647 * 1_000_000, 128))))
+        opt = some(dur_ns(d))
+    # the send timeout the socket core hands to a PUB socket's connections
+    helper = None
+    for cand in HELPER_CANDIDATES:
+        f = h.it.resolve_fn(cand, "")
+        if f:
+            helper = f
+            break
+    vs = prog.enum_variants("socket::types::SocketType")
+    if helper is not None:
+        conn_timeo = h.it.run_body(prog.body(helper), [Enum("socket::types::SocketType", vs.index("Pub"), "Pub", []), opt])
+        h.cover("c12.pub.connection-timeout-from-helper")
+    else:
+        # no such function in this tree: the core passes the SNDTIMEO option through unchanged
+        # (socket/core/command_processor.rs: `let sndtimeo_snapshot = core_arc.core_state.read().options.sndtimeo;`)
+        src = open(prog.repo_core + "/src/socket/core/command_processor.rs").read()
+        h.check("sndtimeo_snapshot = core_arc.core_state.read().options.sndtimeo" in src, "c12.pub.setup-creation-site-not-recognised")
+        conn_timeo = opt
+    stalled_first = h.choose(2, "stalled_subscriber_first") == 1
+    chans = [_ChanM(1), _ChanM(1)]
+    stalled = 0 if stalled_first else 1
+    chans[stalled].items.append("occupant")
+    fields = prog.struct_fields(SCA)
+    def sca(i):
+        vals = {"sca_stop_mailbox": Opaque("mailbox"), "sca_handle_id": 10 + i, "pipe_sender": Agg("{chan.tx}", [chans[i]]), "pipe_write_id_to_sca": 20 + i,
+                "sndtimeo": clone_val(conn_timeo)}
+        return BoxV(Cell(Agg(SCA, [vals[f] for f in fields]), f"sca{i}"), (), SCA)
+    uris = [string("tcp://a"), string("tcp://b")]
+    ef = prog.struct_fields("socket::core::state::EndpointInfo")
+    def endpoint(i):
+        v = [Opaque(f) for f in ef]
+        v[ef.index("connection_iface")] = sca(i)
+        v[ef.index("endpoint_uri")] = clone_val(uris[i])
+        return Agg("socket::core::state::EndpointInfo", v)
+    csf = prog.struct_fields("socket::core::state::CoreState")
+    cs_vals = [Opaque(f) for f in csf]
+    cs_vals[csf.index("endpoints")] = MapV("HashMap", [(clone_val(uris[i]), endpoint(i)) for i in range(2)])
+    core_state = Ref(Cell(Agg("{lock}", [Agg("socket::core::state::CoreState", cs_vals)]), "core_state"), ())
+    dist = Ref(Cell(h.method(DIST, "new"), "dist"), ())
+    for i in range(2):
+        h.method(DIST, "add_peer_uri", dist, clone_val(uris[i]))
+    def timeout_fn(it, args, dty, func):
+        return Agg("{timeout}", [args[0], args[1]])
+    h.it.hooks["tokio::time::timeout"] = timeout_fn
+    def extern(it, plain, args, dty, func):
+        if plain.startswith("tokio::time::timeout"):
+            return timeout_fn(it, args, dty, func)
+        if plain.endswith("Future>::poll"):
+            fut = _deref(args[0])
+            if isinstance(fut, Agg) and fut.ty == "{timeout}":
+                inner = _chan_fut_poll(it, [Ref(Cell(fut.f[1], "inner"), ())], "", "")
+                if inner.vname == "Ready":
+                    return Enum("std::task::Poll", 0, "Ready", [ok(inner.f[0])])
+                return Enum("std::task::Poll", 1, "Pending", [])        # the timer has not fired yet
+            return NotImplemented
+        if plain.endswith("IntoFuture>::into_future") or plain.startswith("std::pin::Pin::"):
+            return args[0]
+        return NotImplemented
+    h.it.extern = extern
+    h.panic_role = "c12.pub"
+    multipart = h.choose(2, "multipart") == 1
+    msg = h.method("message::msg::Msg", "from_vec", Seq("vec", [0x70]))
+    if multipart:
+        fb = Ref(Cell(h.method("message::FrameBatch", "new"), "fb"), ())
+        h.method("message::FrameBatch", "push", fb, msg)
+        f = Fut(h, DIST, "send_to_all_multipart", [dist, fb.load(), 1, core_state])
+    else:
+        f = Fut(h, DIST, "send_to_all", [dist, Ref(Cell(msg, "msg"), ()), 1, core_state])
+    r = f.poll()
+    h.check(r is not None, "c12.pub.publisher-blocked-by-a-subscriber-that-stopped-reading",
+            f"SNDTIMEO option {'-1' if mode == 0 else ('0' if mode == 1 else 'positive')}: publishing with one subscriber whose queue is full parks the publisher "
+            f"(the connection waits for room{' without limit' if mode == 0 else ''}); {'the other subscriber, served after it, has not received the message either' if stalled_first else 'delivery to later subscribers waits as well'}")
+    if r is None:
+        return
+    other = 1 - stalled
+    h.check(len(chans[other].items) == 1, "c12.pub.healthy-subscriber-did-not-get-the-message", str(len(chans[other].items)))
+    h.check(chans[stalled].items == ["occupant"], "c12.pub.message-enqueued-on-the-full-pipe")
+    h.cover("c12.pub.dropped-for-the-stalled-subscriber")
+
+
+def replay_pub_never_blocks(model, params, role):
+    if "publisher-blocked" in role:
+        return "pub_stalled_subscriber\n", (lambda out: "PUBLISHER BLOCKED" in out), \
+            "PUB (SNDHWM 1) with a raw subscriber that stopped reading and a healthy SUB; expecting a publish call to block for seconds"
+    return None
